@@ -360,7 +360,13 @@ class Ctx:
     def spawn(self, name, fn, daemon_task=False):
         t = Task(name, fn, daemon_task)
         self.tasks.append(t)
+        if self.tasks_running:
+            # started by a running task (threading.Thread(...).start() inside the code under test)
+            t.thread = threading.Thread(target=self._thread_main, args=(t,), daemon=True)
+            t.thread.start()
         return t
+
+    tasks_running = False
 
     def _tracer(self, frame, event, arg):
         # global trace function of a task thread: trace only canopen frames
@@ -421,8 +427,10 @@ class Ctx:
         for t in self.tasks:
             t.thread = threading.Thread(target=self._thread_main, args=(t,), daemon=True)
             t.thread.start()
+        self.tasks_running = True
         self._dispatch(None)
         self.main_sem.acquire()         # parked until the run ends
+        self.tasks_running = False
         # unwind whatever is still parked
         self.aborting = True
         for t in self.tasks:
